@@ -464,6 +464,19 @@ impl Runner {
                 hkey(&post.dump)
             ));
         }
+        if self.keep_log && crate::VERBOSE.load(std::sync::atomic::Ordering::Relaxed) {
+            let mut l = String::from("    pre-queries:");
+            for (k, v) in preq.iter() {
+                l.push_str(&format!(" {}={}", k, match v { Ok(x) => x.to_string(), Err(e) => format!("ERR({})", tail(e, 60)) }));
+            }
+            self.log.push(l);
+            for (i, v) in post.vamms.iter().enumerate() {
+                self.log.push(format!("    vamm{}: q={} b={} size={} spot={} cum={} open={} registered={} next_funding={}", i, v.q, v.b, v.size, v.spot, v.cum, v.open, v.registered, v.next_funding));
+            }
+            for ((v, t), p) in post.pos.iter() {
+                self.log.push(format!("    pos vamm{} {}: dir={:?} size={} margin={} notional={} checkpoint={} block={}", v, t, p.dir, p.size, p.margin, p.notional, p.checkpoint, p.block));
+            }
+        }
         if out.ok {
             if let Op::RawEngine { json } = &step.op {
                 // a raw settlement call cannot be referenced: the running sums are given up for the rest of the run
